@@ -174,6 +174,31 @@ pub fn big_cases(thorough: bool) -> Vec<BigCase> {
             }
         }
     }
+    // every ASCII character as a needle character next to a fixed companion, against the
+    // character itself and its case partner (c ^ 0x20) in three haystack layouts: a shortcut that
+    // treats one particular character specially (a range bound, a table edge) shows here
+    for code in 0u8..128 {
+        let ch = code as char;
+        let partners: Vec<char> = if (code ^ 0x20) < 128 { vec![ch, (code ^ 0x20) as char] } else { vec![ch] };
+        for p in partners {
+            for q in ['q', '1'] {
+                for ic in [true, false] {
+                    let c = cfg(ic, false);
+                    // a legal needle consists of normal forms only (upper-case letters are not
+                    // legal needle characters when case is ignored)
+                    if crate::refm::norm(ch, c) != ch {
+                        continue;
+                    }
+                    let hays: [Vec<char>; 4] = [vec![p, '-', q], vec!['-', p, q, '-'], vec![q, '-', p], vec![q, p, q, p, '.']];
+                    for hay in hays {
+                        for needle in [vec![ch, q], vec![q, ch], vec![ch, ch]] {
+                            out.push(BigCase { family: "ascii-sweep", cfg: c, hay: hay.clone(), needle });
+                        }
+                    }
+                }
+            }
+        }
+    }
     for n in needle_lengths(thorough) {
         let c = cfg(false, false);
         let run: Vec<char> = vec!['a'; n];
